@@ -115,8 +115,59 @@ try:
             except OSError:
                 pass
         open(victim, "wb").write(b"precious")
+    # -- phase 2: UFO writing with glyph and layer names taken from untrusted text (GLIF / plist / TTX) ---------
+    from fontTools.ufoLib import UFOWriter
+    hostile = ["../../outside/evil", "../outside/victim.ttf", "a/../../../outside/evil", "/" + outside.lstrip("/") + "/evil",
+               "..", "a/b", "x/../../y", "..\\outside\\evil", "ok", "a:b", "con/../..", "../OUTSIDE/e", "\u2215../outside/evil"]
+
+    class _G:
+        width = 500
+        height = 0
+        unicodes = []
+        note = lib = image = guidelines = anchors = None
+
+    for i, name in enumerate(hostile):
+        for kind in ("glyph-name", "layer-name"):
+            evaluations += 1
+            ufo = os.path.join(project, "w%d_%s.ufo" % (i, kind))
+            before = snapshot(root, ufo)
+            err = None
+            try:
+                w = UFOWriter(ufo)
+                if kind == "glyph-name":
+                    gs = w.getGlyphSet()
+                    gs.writeGlyph(name, _G(), lambda pen: None)
+                    gs.writeContents()
+                else:
+                    gs = w.getGlyphSet(layerName=name, defaultLayer=False)
+                    gs.writeGlyph("a", _G(), lambda pen: None)
+                    gs.writeContents()
+                w.writeLayerContents()
+                w.close()
+            except Exception as e:
+                err = type(e).__name__
+            after = snapshot(root, ufo)
+            distinct.add((kind, "sep" if "/" in name else "other", err or "written"))
+            for p in sorted(set(after) - set(before)):
+                violations.append({"what": "UFOWriter %s %r: file created outside the UFO: %s" % (kind, name, os.path.relpath(p, root)), "known_id": None})
+            for p in sorted(q for q in before if q in after and before[q] != after[q]):
+                violations.append({"what": "UFOWriter %s %r: existing file outside the UFO overwritten: %s" % (kind, name, os.path.relpath(p, root)), "known_id": None})
+            for p in sorted(set(before) - set(after)):
+                violations.append({"what": "UFOWriter %s %r: file outside the UFO removed: %s" % (kind, name, os.path.relpath(p, root)), "known_id": None})
+            if err is None and os.path.isdir(ufo):
+                inside = [os.path.relpath(os.path.join(dp, n), ufo) for dp, _, fn in os.walk(ufo) for n in fn]
+                deep = [q for q in inside if q.count(os.sep) > 1]
+                if deep:
+                    violations.append({"what": "UFOWriter %s %r: name used as a path inside the UFO: %s" % (kind, name, deep[0]), "known_id": None})
+            for p in list(set(after) - set(before)):
+                try:
+                    os.unlink(p)
+                except OSError:
+                    pass
+            open(victim, "wb").write(b"precious")
+            shutil.rmtree(ufo, ignore_errors=True)
 finally:
     shutil.rmtree(root, ignore_errors=True)
 emit({"evaluations": evaluations, "distinct_nontrivial": len(distinct), "samples": [{"attrs": cases[0][1]}, {"attrs": cases[4][1]}],
-      "rule": "8 target paths (relative/absolute/'//'/harmless) x {filename=, name= without filename, name= with a harmless filename}; distinct = (attribute, path kind, outcome)",
+      "rule": "13 hostile glyph / layer names through UFOWriter; 8 target paths (relative/absolute/'//'/harmless) x {filename=, name= without filename, name= with a harmless filename}; distinct = (attribute, path kind, outcome)",
       "violations": violations[:8]})
